@@ -57,11 +57,12 @@ func randomConfig(rng *rand.Rand, maxN int) sched.Config {
 			}
 		}
 	}
+	c.Ext = rng.Intn(4) == 0 // in a quarter of the walks the caller may cancel the context, at a moment the chooser picks
 	return c
 }
 
 func cfgEvent(c sched.Config) sched.Event {
-	return sched.Event{Kind: "cfg", N: c.N, Deps: c.Deps, Inverse: c.Inverse, Limit: c.Limit, After: c.After, Fails: c.Fails}
+	return sched.Event{Kind: "cfg", N: c.N, Deps: c.Deps, Inverse: c.Inverse, Limit: c.Limit, After: c.After, Fails: c.Fails, Ext: c.Ext}
 }
 
 type c13run struct {
@@ -76,9 +77,9 @@ func C13(c *core.Ctx) {
 	c.Assumption("verdicts come only from monitors on the real visitor callbacks and the real return value; a trace the specification rejects without a monitor failing is reported as DRIFT")
 
 	// ---- 1. design-level model checking
-	mcCfg := "SPECIFICATION Spec\nCONSTANTS MinN = 1\n MaxN = 3\n Limits = {0,1}\n MaxFail = 1\n RootSets = 1\nINVARIANTS OnceEach DepsFirst BoundAlways ReturnAfterAll ResultOK RootsClosure ChanBounded \nCHECK_DEADLOCK TRUE\n"
+	mcCfg := "SPECIFICATION Spec\nCONSTANTS MinN = 1\n MaxN = 3\n Limits = {0,1}\n MaxFail = 1\n RootSets = 1\n Exts = {FALSE}\nINVARIANTS OnceEach DepsFirst BoundAlways ReturnAfterAll ResultOK RootsClosure ChanBounded \nCHECK_DEADLOCK TRUE\n"
 	if !c.Quick() {
-		mcCfg = "SPECIFICATION Spec\nCONSTANTS MinN = 1\n MaxN = 3\n Limits = {0,1,2}\n MaxFail = 2\n RootSets = 2\nINVARIANTS OnceEach DepsFirst BoundAlways ReturnAfterAll ResultOK RootsClosure ChanBounded\nPROPERTY Live\nCHECK_DEADLOCK TRUE\n"
+		mcCfg = "SPECIFICATION Spec\nCONSTANTS MinN = 1\n MaxN = 3\n Limits = {0,1,2}\n MaxFail = 2\n RootSets = 2\n Exts = {FALSE}\nINVARIANTS OnceEach DepsFirst BoundAlways ReturnAfterAll ResultOK RootsClosure ChanBounded\nPROPERTY Live\nCHECK_DEADLOCK TRUE\n"
 	}
 	r, err := c.RunTLC(core.TLCOpts{Module: "MC_Traversal", CfgText: mcCfg, Workers: 8, Timeout: 40 * time.Minute, Name: "mc"})
 	if err != nil {
@@ -93,14 +94,31 @@ func C13(c *core.Ctx) {
 		return
 	}
 	c.Logf("model check: %d distinct states, %.0fs", r.Distinct, r.Wall.Seconds())
+	// the caller may cancel its context at any moment (environment action CallerCancel): the bound, once-each, deps-first and
+	// return-after-all clauses still hold
+	extCfg := "SPECIFICATION Spec\nCONSTANTS MinN = 1\n MaxN = 3\n Limits = {1}\n MaxFail = 0\n RootSets = 0\n Exts = {TRUE}\nINVARIANTS OnceEach DepsFirst BoundAlways ReturnAfterAll ResultOK ChanBounded\nCHECK_DEADLOCK TRUE\n"
+	if !c.Quick() {
+		extCfg = "SPECIFICATION Spec\nCONSTANTS MinN = 1\n MaxN = 3\n Limits = {0,1,2}\n MaxFail = 1\n RootSets = 1\n Exts = {TRUE}\nINVARIANTS OnceEach DepsFirst BoundAlways ReturnAfterAll ResultOK ChanBounded\nPROPERTY Live\nCHECK_DEADLOCK TRUE\n"
+	}
+	rx, err := c.RunTLC(core.TLCOpts{Module: "MC_Traversal", CfgText: extCfg, Workers: 8, Timeout: 40 * time.Minute, Name: "mcext"})
+	if err != nil {
+		c.Inconclusive("model checking (caller cancellation) failed: " + err.Error())
+		return
+	}
+	c.AddTLC(rx)
+	c.Set("mc_traversal_caller_cancel", map[string]interface{}{"distinct": rx.Distinct, "generated": rx.Generated, "config": strings.ReplaceAll(extCfg, "\n", " ")})
+	if rx.Violated != "" {
+		c.Inconclusive("the model with caller cancellation violates " + rx.Violated + ": " + tailStr(rx.ErrorTrace(), 800))
+		return
+	}
 	if !c.Quick() {
 		// vacuity guard: every action of Traversal.tla is taken in the (quick-sized) bounded model
-		covCfg := "SPECIFICATION Spec\nCONSTANTS MinN = 1\n MaxN = 3\n Limits = {0,1}\n MaxFail = 1\n RootSets = 1\nINVARIANTS OnceEach DepsFirst BoundAlways\nCHECK_DEADLOCK TRUE\n"
+		covCfg := "SPECIFICATION Spec\nCONSTANTS MinN = 1\n MaxN = 3\n Limits = {0,1}\n MaxFail = 1\n RootSets = 0\n Exts = {FALSE, TRUE}\nINVARIANTS OnceEach DepsFirst BoundAlways\nCHECK_DEADLOCK TRUE\n"
 		if !c.CoverageGuard("mc_traversal_action_coverage", core.TLCOpts{Module: "MC_Traversal", CfgText: covCfg, Workers: 8, Timeout: 40 * time.Minute, Name: "mccov"}) {
 			return
 		}
 		// N = 4 without failures/roots, and liveness for N <= 3 above
-		cfg4 := "SPECIFICATION Spec\nCONSTANTS MinN = 4\n MaxN = 4\n Limits = {0,2}\n MaxFail = 0\n RootSets = 0\nINVARIANTS OnceEach DepsFirst BoundAlways ReturnAfterAll ResultOK ChanBounded \nCHECK_DEADLOCK TRUE\n"
+		cfg4 := "SPECIFICATION Spec\nCONSTANTS MinN = 4\n MaxN = 4\n Limits = {0,2}\n MaxFail = 0\n RootSets = 0\n Exts = {FALSE}\nINVARIANTS OnceEach DepsFirst BoundAlways ReturnAfterAll ResultOK ChanBounded \nCHECK_DEADLOCK TRUE\n"
 		r4, err := c.RunTLC(core.TLCOpts{Module: "MC_Traversal", CfgText: cfg4, Timeout: 60 * time.Minute, Name: "mc4"})
 		if err != nil {
 			c.Inconclusive("model checking N=4 failed: " + err.Error())
@@ -141,7 +159,26 @@ func C13(c *core.Ctx) {
 		if i%2 == 1 {
 			ch = sched.NewBiased(rng)
 		}
+		if cfg.Ext && i%4 != 0 { // the caller cancels at a step drawn over the whole walk (otherwise: whenever the chooser takes it)
+			ch = sched.CancelAt{Inner: ch, At: rng.Intn(8*cfg.N + 6)}
+		}
 		record(sched.Run(cfg, ch), "random")
+	}
+	// wide frontiers under a limit with the caller cancelling while the limit is reached: N independent services (+ one dependent)
+	nWide := 150
+	if !c.Quick() {
+		nWide = 3000
+	}
+	for i := 0; i < nWide; i++ {
+		n := 3 + rng.Intn(3)
+		cfg := sched.Config{N: n, Deps: make([][]int, n), Inverse: i%2 == 1, Limit: 1 + rng.Intn(n-2), After: []int{}, Fails: []int{}, Ext: true}
+		for k := range cfg.Deps {
+			cfg.Deps[k] = []int{}
+		}
+		if i%3 == 0 {
+			cfg.Deps[n-1] = []int{1}
+		}
+		record(sched.Run(cfg, sched.CancelAt{Inner: sched.Random{Rng: rng}, At: 4 + rng.Intn(6*n)}), "random")
 	}
 	c.Logf("schedules executed on the real code: %d (quiescence cross-checks %d, disagreements %d)", len(runs), sched.QuiesceChecks, sched.QuiesceDisagree)
 	c.Set("quiescence_crosschecks", map[string]int{"checked_against_runtime_stack": sched.QuiesceChecks, "disagreements": sched.QuiesceDisagree})
